@@ -198,7 +198,7 @@ func (x *Exec) foreignCall(fr *Frame, st *State, ev *CallEvent, sig *types.Signa
 			return
 		}
 		tn := recvTypeName(root.Signature.Recv().Type())
-		invs := x.cs.ObjInvs[FuncPkgPath(fr.fn)+"."+tn]
+		invs := x.objInvsOf(FuncPkgPath(fr.fn)+"."+tn, fr.fn)
 		if len(invs) == 0 {
 			return
 		}
@@ -531,7 +531,7 @@ func (x *Exec) applyContract(fr *Frame, st *State, cc *ssa.CallCommon, callee *s
 	// a method re-establishes the object invariant of its receiver
 	if callee.Signature.Recv() != nil && len(args) > 0 && callee.Parent() == nil {
 		tn := recvTypeName(callee.Signature.Recv().Type())
-		if invs := x.cs.ObjInvs[FuncPkgPath(callee)+"."+tn]; len(invs) > 0 {
+		if invs := x.objInvsOf(FuncPkgPath(callee)+"."+tn, callee); len(invs) > 0 {
 			ienv := &Env{x: x, st: st, vars: map[string]Val{"self": args[0]}, pkg: x.pkgOf(callee)}
 			for _, c := range invs {
 				st.assume(x.evalBool(ienv, c.Expr))
@@ -637,15 +637,6 @@ func (x *Exec) invoke(fr *Frame, st *State, cc *ssa.CallCommon, recv Val, args [
 		k(st, x.uninterp(st, "im_"+mname, append([]Val{recv}, args...), sig.Results().At(0).Type()))
 		return
 	}
-	if lib, ok := libTable["iface:"+itName+"."+mname]; ok {
-		if r, ok := lib(x, fr, st, cc, append([]Val{recv}, args...)); ok {
-			k(st, r)
-			return
-		}
-	}
-	if mname == "Close" {
-		x.disown(st, recv, "closed")
-	}
 	ev := &CallEvent{Kind: "invoke", Recv: recv.T, Method: mname, Args: args, Desc: desc, Org: recv.Org, IfaceName: itName}
 	// sink rules: preconditions at this call site
 	for _, sr := range x.cs.Sinks {
@@ -664,6 +655,15 @@ func (x *Exec) invoke(fr *Frame, st *State, cc *ssa.CallCommon, recv Val, args [
 			x.oblige(st, "CALL", fmt.Sprintf("sink-pre(%s.%s: %s)", sr.Owner, mname, c.Src), g, "precondition on a sink call")
 			st.assume(g)
 		}
+	}
+	if lib, ok := libTable["iface:"+itName+"."+mname]; ok {
+		if r, ok := lib(x, fr, st, cc, append([]Val{recv}, args...)); ok {
+			k(st, r)
+			return
+		}
+	}
+	if mname == "Close" {
+		x.disown(st, recv, "closed")
 	}
 	x.foreignCall(fr, st, ev, sig, args, k)
 }
@@ -1124,6 +1124,13 @@ func (x *Exec) havocHeapOnly(st *State) {
 
 // libFacts: the few things assumed about otherwise unspecified deterministic
 // library functions.
+// digestOf: the digest (algorithm:hex) of some bytes under an algorithm, as an
+// uninterpreted function; FromBytes and NewDigest are both defined by it.
+func (x *Exec) digestOf(st *State, alg, data Term, T types.Type) Val {
+	x.d.DeclareFun("dg_of", "(declare-fun dg_of (String String) String)")
+	return Val{T: mk("String", "dg_of", alg, data), Typ: T}
+}
+
 func (x *Exec) libFacts(st *State, name string, args, rs []Val) {
 	switch name {
 	case "github.com/opencontainers/go-digest.Parse":
@@ -1135,6 +1142,9 @@ func (x *Exec) libFacts(st *State, name string, args, rs []Val) {
 		}
 	case "github.com/opencontainers/go-digest.FromBytes", "github.com/opencontainers/go-digest.FromString":
 		if len(rs) == 1 && rs[0].T.Sort == "String" {
+			if as := x.bytesAsStrings(st, args); len(as) == 1 && as[0].T.Sort == "String" {
+				st.assume(Eq(rs[0].T, x.digestOf(st, StrLit("sha256"), as[0].T, rs[0].Typ).T))
+			}
 			// the canonical digest of some bytes is a valid, non-empty digest
 			st.assume(Not(Eq(rs[0].T, StrLit(""))))
 			perr := x.uninterp(st, "lf_github_com_opencontainers_go_digest_Parse_1", []Val{{T: rs[0].T, Typ: types.Typ[types.String]}}, types.Universe.Lookup("error").Type())
